@@ -260,15 +260,22 @@ def usedGradientIds : DocM (List String) := do
       | .error _ => pure ()
   pure used
 
+/-- what `_select_gradients()` selects -/
+def isGradElem (n : Node) : Bool := (Node.splitNs n.tag).1 == some svgNs && isGradLocal n.localTag
+
+/-- is a gradient element (by its attributes) among the used ones? -/
+def gradKept (used : List String) (a : Attrs) : Bool :=
+  match Style.getKV a "id" with | some i => used.contains i | none => false
+
+/-- the loop of `_remove_orphaned_gradients()`: every gradient element whose id is not in use leaves the tree -/
+def pruneGrads (used : List String) (root : Node) : Node :=
+  (root.elems.filter isGradElem).foldl (fun r g => if gradKept used g.attrs then r else Node.removeUid r g.uid) root
+
 /-- `_remove_orphaned_gradients()` + the non-gradient purge of the master defs -/
 def removeOrphanedGradients (defsUid : Nat) : DocM Unit := do
   let used ← usedGradientIds
   let root ← getRoot
-  let grads := root.elems.filter (fun n => (Node.splitNs n.tag).1 == some svgNs && isGradLocal n.localTag)
-  let mut r := root
-  for g in grads do
-    let keep := match g.getAttr "id" with | some i => used.contains i | none => false
-    if !keep then r := Node.removeUid r g.uid
+  let mut r := pruneGrads used root
   r := Node.updateUid r defsUid (fun d => d.setChildren (d.children.filter (fun k => !k.isLxmlNode || isGradientTag k.tag)))
   setRoot r
 
